@@ -127,6 +127,44 @@ def check(pid, tier='quick', seed=0):
                                'engine': 'kani'})
             else:
                 undecided.append('kani %s: %s' % (k['harness'], '; '.join(kr['failed_desc'])[:300]))
+    # ---- thorough tier: (a) vacuity pass, (b) a second solver seed
+    thorough = {}
+    if tier == 'thorough':
+        base_units = [u for u in units if '@' not in u]
+        vres = runner.run_units(base_units, variant='vacuity', rlimit=prop.get('rlimit', 40))
+        vac_checked = 0
+        for u in base_units:
+            r = vres[u]
+            if r.info is None:
+                undecided.append('%s (vacuity pass): %s' % (u, '; '.join(r.undecided)[:200]))
+                continue
+            globs = prop['units'][u]
+            vfail = set(x['fn'] for x in r.failed if x['kind'] == 'assertion' and 'vacuity_probe' in (x.get('text') or ''))
+            hard = set()
+            for msg in r.undecided:
+                mm = re.search(r'\(([^()]*)\)\s*$', msg)
+                if 'esource limit' in msg or 'rlimit' in msg:
+                    hard.add(msg)
+            for f in r.info['functions']:
+                if not fn_in_scope(globs, f['fn']):
+                    continue
+                vac_checked += 1
+                if f['fn'] not in vfail and not hard:
+                    undecided.append('%s: %s verifies an assertion that must fail at the start of its body: contradictory precondition, vacuous contract' % (u, f['fn']))
+        # (b) second seed: an obligation that fails under one solver seed only is unstable, not violated
+        s2 = (seed or 0) + 1
+        sres = runner.run_units(units, rlimit=prop.get('rlimit', 40), seed=s2)
+        base_fail = set(x['obligation'] for x in failed)
+        unstable = 0
+        for u in units:
+            r = sres[u]
+            for x in r.failed:
+                if r.info and fn_in_scope(prop['units'][u], x['fn']) and x['obligation'] not in base_fail:
+                    unstable += 1
+                    undecided.append('%s: %s fails only with solver seed %d (unstable proof, not a violation)' % (u, x['obligation'], s2))
+            for msg in r.undecided:
+                undecided.append('%s (seed %d): %s' % (u, s2, msg))
+        thorough = {'vacuity_functions_checked': vac_checked, 'second_seed': s2, 'unstable_obligations': unstable}
     # ---- classify failures against the known-findings file
     lines = []
     violations = []
@@ -144,16 +182,21 @@ def check(pid, tier='quick', seed=0):
             violations.append(f)
     # known findings that no longer fail are fine (nothing is printed for them)
     rc = 0
-    os.makedirs(os.path.join(VERIF, 'replays', pid), exist_ok=True)
+    os.makedirs(os.path.join(gen.OUT, 'replays', pid), exist_ok=True)
     for v in violations:
-        rp = os.path.join(VERIF, 'replays', pid, sanitize(v['obligation']) + '.json')
+        rp = os.path.join(gen.OUT, 'replays', pid, sanitize(v['obligation']) + '.json')
         src = next((x['source'] for x in fn_records if x['fn'] == v['fn']), None)
+        cx = None
+        if v.get('engine') == 'kani':
+            # Kani executes the REAL crate symbolically: its concrete playback gives the failing input of the real code
+            cx = kanirun.counterexample(v['fn'], unwind=prop.get('kani_unwind', 12))
         with open(rp, 'w') as fh:
             json.dump({'property': pid, 'failed_obligation': v['obligation'], 'kind': v['kind'], 'function': v['fn'],
                        'source': src, 'clause_or_site': v['text'], 'verifier': v.get('engine', 'verus'), 'verifier_message': v['message'],
-                       'verifier_output': v['rendered'], 'counterexample': None,
-                       'note': 'Verus gives no counterexample; no-failing-input-found'}, fh, indent=1)
-        lines.append('VIOLATION property=%s replay=%s obligation=%s no-failing-input-found' % (pid, rp, v['obligation']))
+                       'verifier_output': v['rendered'], 'counterexample': cx,
+                       'note': ('failing input of the real code as found by CBMC (Kani concrete playback: the byte vectors are the values of the kani::any() calls of harness %s in /verif/kani/src/lib.rs, in order)' % v['fn']) if cx
+                               else 'the verifier gives no counterexample; no-failing-input-found'}, fh, indent=1)
+        lines.append('VIOLATION property=%s replay=%s obligation=%s%s' % (pid, rp, v['obligation'], '' if cx else ' no-failing-input-found'))
         rc = 1
     if undecided and rc == 0:
         rc = 2
@@ -162,7 +205,7 @@ def check(pid, tier='quick', seed=0):
     for fr in fn_records[:4]:
         samples.append({'function': fr['fn'], 'source': fr['source'], 'clauses': fr['clauses']})
     ev = {
-        'property_id': pid, 'tier': tier, 'seed': seed, 'level': 'proof',
+        'property_id': pid, 'tier': tier, 'seed': seed, 'thorough_passes': thorough, 'level': 'proof',
         'coverage': {
             'obligations': obligations - known_hits, 'discharged': discharged,
             'obligations_failing_as_known_findings': known_hits,
@@ -184,8 +227,8 @@ def check(pid, tier='quick', seed=0):
         'wall_s': round(time.time() - t0, 2),
         'violations': len(violations),
     }
-    os.makedirs(os.path.join(VERIF, 'evidence'), exist_ok=True)
-    with open(os.path.join(VERIF, 'evidence', pid + '.json'), 'w') as fh:
+    os.makedirs(os.path.join(gen.OUT, 'evidence'), exist_ok=True)
+    with open(os.path.join(gen.OUT, 'evidence', pid + '.json'), 'w') as fh:
         json.dump(ev, fh, indent=1)
     for l in lines:
         print(l)
